@@ -69,11 +69,13 @@ uint64_t ctx_hash(const ctx_t *c) {
   return h;
 }
 int ctx_check_padding(ctx_t *c) {
-  for (int i = 0; i < NREG; i++)
+  for (int i = 0; i < NREG; i++) {
     if (c->m[i] && c->parent[i] < 0) {
       if (mat_padding_dirty(c->m[i])) return i;
       if (mat_stride_padding_dirty(c->m[i])) c->pad_stride_dirty++;
     }
+    if (c->hid[i] && mat_padding_dirty(c->hid[i])) return i; /* the owner a window operand lives in */
+  }
   return -1;
 }
 
@@ -86,8 +88,9 @@ void ctx_init(ctx_t *c, const lib_t *L) {
 }
 static void reg_free(ctx_t *c, int r) {
   if (!c->m[r]) return;
-  if (c->parent[r] >= 0) { c->nwin[c->parent[r]]--; }
+  if (c->parent[r] >= 0 && c->parent[r] < NREG) { c->nwin[c->parent[r]]--; }
   c->L->mzd_free(c->m[r]);
+  if (c->hid[r]) { c->L->mzd_free(c->hid[r]); c->hid[r] = NULL; }
   c->m[r] = NULL; c->parent[r] = -1;
 }
 void ctx_free_all(ctx_t *c) {
@@ -297,9 +300,9 @@ static int set_result(ctx_t *c, long reg, mzd_t *res) {
 static int overlaps_reg(ctx_t *c, long a, long b) { /* same storage family? */
   if (!ISREG(a) || !ISREG(b)) return 0;
   long ra = a, rb = b;
-  while (c->parent[ra] >= 0) ra = c->parent[ra];
-  while (c->parent[rb] >= 0) rb = c->parent[rb];
-  return ra == rb;
+  while (c->parent[ra] >= 0 && c->parent[ra] < NREG) ra = c->parent[ra];
+  while (c->parent[rb] >= 0 && c->parent[rb] < NREG) rb = c->parent[rb];
+  return ra == rb; /* a `wmat` window has a hidden parent of its own: it overlaps nothing else */
 }
 
 /* ---- multiplication family: args C A B param ---- */
@@ -802,6 +805,18 @@ int prog_exec_line(ctx_t *c, const char *line) {
     if (!ISREG(r) || c->m[r] || m < 0 || nn < 0 || m > 20000 || nn > 20000) { c->skipped = 1; return 1; }
     c->m[r] = Lb->mzd_init((rci_t)m, (rci_t)nn);
     c->parent[r] = -1;
+    gen_fill(c->m[r], w[4], atol(w[5]), strtoull(w[6], NULL, 10));
+    return 0;
+  }
+  if (!strcmp(w[0], "wmat")) { /* wmat R m n GEN p seed r0 c0w er ec : operand that is a window into a larger, junk filled owner */
+    if (n < 11) return -1;
+    long r = atol(w[1]), m = atol(w[2]), nn = atol(w[3]), r0 = atol(w[7]), c0w = atol(w[8]), er = atol(w[9]), ec = atol(w[10]);
+    if (!ISREG(r) || c->m[r] || m < 1 || nn < 1 || m > 20000 || nn > 20000 || r0 < 0 || c0w < 0 || er < 0 || ec < 0 || r0 > 64 || c0w > 8 || er > 64 || ec > 200) { c->skipped = 1; return 1; }
+    mzd_t *P = Lb->mzd_init((rci_t)(m + r0 + er), (rci_t)(c0w * 64 + nn + ec));
+    gen_fill(P, "rand", 128, strtoull(w[6], NULL, 10) ^ 0x77696e646f77ULL); /* what surrounds the view: the same in every world */
+    c->hid[r] = P;
+    c->m[r] = Lb->mzd_init_window(P, (rci_t)r0, (rci_t)(c0w * 64), (rci_t)(r0 + m), (rci_t)(c0w * 64 + nn));
+    c->parent[r] = NREG + (int)r;
     gen_fill(c->m[r], w[4], atol(w[5]), strtoull(w[6], NULL, 10));
     return 0;
   }
